@@ -27,6 +27,8 @@ type c29case struct {
 	Table  []uint32 `json:"pos_table"`
 	Seed   string   `json:"seed"` // hex, 64 bytes
 	Source string   `json:"source"`
+	// unit "round" (C29_round_test.go): a case of the node-level entry points
+	Round *c29round `json:"round,omitempty"`
 }
 
 func c29chain(n, c uint32, peerOrder, table []uint32) *vconfig.ChainConfig {
@@ -137,7 +139,7 @@ func c29check(r *vh.Run, chain *vconfig.ChainConfig, seed vconfig.VRFValue, sour
 		for _, p := range chain.Peers {
 			po = append(po, p.Index)
 		}
-		return c29case{chain.N, chain.C, po, append([]uint32{}, chain.PosTable...), hex.EncodeToString(seed[:]), source}
+		return c29case{chain.N, chain.C, po, append([]uint32{}, chain.PosTable...), hex.EncodeToString(seed[:]), source, nil}
 	}
 	bad := func(what string, f string, a ...interface{}) {
 		ap := c29appeared(seed, chain.PosTable)
@@ -652,6 +654,9 @@ func TestVerif_C29(t *testing.T) {
 	r.Assume("valid configuration: C>=1, N=len(Peers)>=3C+1, distinct peer indexes, every PosTable entry is a member")
 
 	var rc c29case
+	if r.ReplayCase(&rc) && rc.Round != nil {
+		return // a case of unit "round"; replayed there
+	}
 	if r.ReplayCase(&rc) && rc.Table != nil {
 		raw, _ := hex.DecodeString(rc.Seed)
 		var seed vconfig.VRFValue
@@ -664,7 +669,7 @@ func TestVerif_C29(t *testing.T) {
 	c29partA(r, &item)
 	c29partB(r, &item)
 	c29partC(r, &item)
-	r.Sample(c29case{4, 1, []uint32{1, 2, 3, 4}, []uint32{2, 2, 2, 2, 1, 3, 4, 2}, strings.Repeat("00", 64), "example"})
+	r.Sample(c29case{4, 1, []uint32{1, 2, 3, 4}, []uint32{2, 2, 2, 2, 1, 3, 4, 2}, strings.Repeat("00", 64), "example", nil})
 	if r.R.NShards == 1 {
 		r.NeedClass("A:N=4,C=1:appeared=1:E=3,K=3")
 		r.NeedClass("A:N=7,C=2:appeared=7:E=5,K=5")
